@@ -3,6 +3,7 @@ EngineBuilder (seed forms, jitter, single / per-chain initial states)."""
 from __future__ import annotations
 
 import hashlib
+import os
 
 import jax
 import jax.numpy as jnp
@@ -61,11 +62,30 @@ def fmt(a):
 
 
 def one_run(kernel="rw", schedule="S1", seed=7, seedform="int", chains=3, multi=False,
-            inits=(0.25, 0.25, 0.25), jitter=False, engine_seed="none", rebuild=False, support=False):
+            inits=(0.25, 0.25, 0.25), jitter=False, engine_seed="none", rebuild=False, support=False, double_init=False,
+            hashseed=None):
     """engine_seed: "none" | "int" | "key" - EngineBuilder.set_engine_seed with seed + 100 in that form;
     rebuild: the engine is built twice from the same builder and the second engine is run;
     support: the model's log-density is NaN for y <= 0 and the jitter of y is the shift y - 0.3, so that a chain
     with a small initial y starts outside the support (its neighbours must not notice)."""
+    if hashseed is not None:
+        # the same run in a separate Python process with its own string-hash salt (two runs with identical seed and
+        # configuration must agree across processes, not only within one)
+        import json
+        import subprocess
+        import sys
+        kw = dict(kernel=kernel, schedule=schedule, seed=seed, seedform=seedform, chains=chains, multi=multi, inits=list(inits),
+                  jitter=jitter, engine_seed=engine_seed, rebuild=rebuild, support=support, double_init=double_init)
+        env = dict(os.environ, PYTHONHASHSEED=str(hashseed), PYTHONPATH=os.pathsep.join(p for p in sys.path if p))
+        code = ("import json, sys; from harness import runs_driver as R; kw = json.loads(sys.argv[1]); kw['inits'] = tuple(kw['inits']); "
+                "print('@@' + json.dumps(R.one_run(**kw)))")
+        out = subprocess.run([sys.executable, "-c", code, json.dumps(kw)], env=env, capture_output=True, text=True, timeout=900)
+        line = [ln for ln in out.stdout.splitlines() if ln.startswith("@@")]
+        if not line:
+            return {"ev": "run", "cid": "?", "seedform": seedform, "multi": bool(multi), "inits": [repr(float(v)) for v in inits],
+                    "digests": [], "first": [], "expect": [], "jitter_keys_distinct": True,
+                    "crash": "child process failed: " + out.stderr[-300:]}
+        return json.loads(line[0][2:])
     cid = f"{kernel}|{schedule}|c{chains}|seed{seed}|jit{int(jitter)}|es{int(engine_seed != 'none')}|sup{int(support)}"
     ev = {"ev": "run", "cid": cid, "seedform": seedform, "multi": bool(multi),
           "inits": [repr(float(v)) for v in inits], "digests": [], "first": [], "expect": [],
@@ -77,6 +97,9 @@ def one_run(kernel="rw", schedule="S1", seed=7, seedform="int", chains=3, multi=
         b.set_model(gs.DictInterface(logp_pos if support else logp))
         if engine_seed != "none":
             b.set_engine_seed(seed + 100 if engine_seed == "int" else jax.random.PRNGKey(seed + 100))
+        if double_init:
+            # initial values are set twice: first a shared state (as helpers like dist_reg_mcmc do), then the real ones
+            b.set_initial_values(state_of(9.5))
         if multi:
             b.set_initial_values(stack_leaves([state_of(v) for v in inits]), multiple_chains=True)
         else:
@@ -193,6 +216,14 @@ def table_jobs(quick=True):
     # ... also when the kernel's tuning / end-of-warm-up reports an error in that chain only
     base = dict(kernel="tunerw", schedule="S1", seed=17, chains=3, support=True, jitter=True, multi=True)
     tabs.append([dict(base, inits=(2.0, 3.0, 4.0)), dict(base, inits=(2.0, 3.0, 0.4)), dict(base, inits=(2.0, 0.2, 4.0))])
+    # initial values set twice on one builder (first a shared state, then the per-chain ones): the last call counts
+    base = dict(kernel="rw", schedule="S1", seed=19, chains=3)
+    tabs.append([dict(base, multi=True, inits=(0.25, -1.0, 2.0)), dict(base, multi=True, inits=(0.25, -1.0, 2.0), double_init=True),
+                 dict(base, multi=True, inits=(0.25, -1.0, 2.0), jitter=True),
+                 dict(base, multi=True, inits=(0.25, -1.0, 2.0), jitter=True, double_init=True)])
+    # the same seeded run in other Python processes with different string-hash salts
+    base = dict(kernel="rw", schedule="S1", seed=23, chains=2, jitter=True, inits=(0.25, 0.25))
+    tabs.append([dict(base), dict(base, hashseed=1), dict(base, hashseed=2), dict(base, hashseed=5)])
     # EngineBuilder.set_engine_seed in both forms, for several chain counts (a raw key has shape (2,))
     for chains in ((2, 1) if quick else (2, 1, 4)):
         base = dict(kernel="rw", schedule="S1", seed=11, chains=chains)
